@@ -46,7 +46,7 @@ var c05Patterns = []string{
 func init() {
 	register(&Prop{ID: "C05", N: 6000, Quick: 60, QuickFixed: uint64(72*9 + 16), Build: "cover", StallSec: 300, Workers: 12,
 		Assume: []string{"work = number of executed coverage units (Go basic blocks, -covermode=atomic) of all coregex packages between ClearCounters and WriteCounters around ONE call: a deterministic proxy for time; assembly kernels are not counted (the Go loops that call them are)", "the existential constant of the property is fixed for monitoring: K = 400 units per (NFA state x haystack byte) plus a start-up term 200000 + 4000*states; the repaired tree's largest observed constant is recorded in the evidence", "a finite ladder cannot decide 'for all n': the rule reports sustained super-linear growth over 16x size or a bound excess up to 64 KiB"},
-		Rule:   "case i = (pattern, haystack family): patterns are 56 adversarial shapes (nested quantifiers, adjacent overlapping classes, reverse-suffix/inner/multiline, look-around, captures, alternations) and G(D,i) patterns (exemplars of all strategies and mutants); families: one-symbol run, two-symbol alternation, filler+literal, near-match (language sample without its last byte, repeated), sample repeated, longest pattern literal repeated without its context, seeded random walk over the pattern alphabet, digit runs, sample-per-line; ladder n = 64,128,...,65536 (quick: ...,8192); at every rung Match, FindIndex and FindSubmatchIndex are each called once on a warmed value, plus a cold FindIndex at 4096; violation if W > K*states*(n+1)+C0 at any rung, if the last four doubling ratios all exceed 2.4, or if a single call passes 3e8 units (the call is abandoned, the worker restarted); compile: limit families p_k (k up to 512) must satisfy W(Compile) <= 60*(len(p)+states)^2+3e6; one evaluation = one metered call; distinct_nontrivial = distinct (pattern, family, API, rung) with W above the 1e5 noise floor",
+		Rule:   "case i = (pattern, haystack family): patterns are 72 adversarial shapes (nested quantifiers, adjacent overlapping classes, reverse-suffix/inner/multiline, look-around, captures, alternations) and G(D,i) patterns (exemplars of all strategies and mutants); families: one-symbol run, two-symbol alternation, filler+literal, near-match (language sample without its last byte, repeated), sample repeated, longest pattern literal repeated without its context, seeded random walk over the pattern alphabet, digit runs, sample-per-line; ladder n = 64,128,...,65536 (quick: ...,8192); at every rung Match, FindIndex and FindSubmatchIndex are each called once on a warmed value, plus a cold FindIndex at 4096; violation if W > K*states*(n+1)+C0 at any rung, if the last four doubling ratios all exceed 2.4, or if a single call passes 3e8 units (the call is abandoned, the worker restarted); compile: limit families p_k (k up to 512) must satisfy W(Compile) <= 60*(len(p)+states)^2+3e6; one evaluation = one metered call; distinct_nontrivial = distinct (pattern, family, API, rung) with W above the 1e5 noise floor",
 		Init: func(w *W) {
 			if err := cov.Reset(); err != nil {
 				w.Inconclusive("coverage counters are not available: " + err.Error())
